@@ -537,9 +537,14 @@ func (c c07) ParentPhase(env *kernel.Env) kernel.PhaseResult {
 	res.Coverage["reload_tier_loads"] = reloadLoads
 
 	// the real CLI on a generated config
-	cliRuns, cliV := runCLI(env, scr, progs)
+	cliRuns, cliV := runCLI(env, scr, append([]progRef(nil), progs...))
 	res.Coverage["cli_runs"] = cliRuns
 	res.Violations = append(res.Violations, cliV...)
+
+	// the real Config.run under the simulator (map orders and goroutine picks)
+	cmdCov, cmdV := runCmdTier(env, scr, append([]progRef(nil), progs...))
+	res.Coverage["controlled_command_tier"] = cmdCov
+	res.Violations = append(res.Violations, cmdV...)
 	return res
 }
 
